@@ -26,7 +26,7 @@ type swrExp struct {
 	Latency   int64 // origin latency of the background request in ns; -1 = never answers (until cancelled)
 	Cancel    int64 // caller context: swrNoCancel, swrCancelBefore, or cancelled this many ns after the response was returned
 	Outcome   string
-	Validator int // 0 none, 1 ETag, 2 Last-Modified, 3 both; +4: the stored response also says no-cache="ETag, Last-Modified"
+	Validator int   // 0 none, 1 ETag, 2 Last-Modified, 3 both; +4: the stored response also says no-cache="ETag, Last-Modified"
 	Deadline  int64 // the caller's context has a deadline this many ns after the second request starts; 0 = none
 }
 
@@ -66,7 +66,11 @@ func (o *swrOrigin) RoundTrip(req *http.Request) (*http.Response, error) {
 		}
 		h := http.Header{"Cache-Control": {cc}, "Date": {time.Now().UTC().Format(http.TimeFormat)}}
 		if o.exp.Validator&1 != 0 {
-			h.Set("ETag", `"v1"`)
+			if o.exp.Validator&8 != 0 {
+				h.Set("ETag", `W/"v1"`) // a weak validator validates too
+			} else {
+				h.Set("ETag", `"v1"`)
+			}
 		}
 		if o.exp.Validator&2 != 0 {
 			h.Set("Last-Modified", "Sat, 01 Jan 2000 00:00:00 GMT")
@@ -267,10 +271,10 @@ func TestSWR(t *testing.T) {
 					continue
 				}
 				outcomes := []string{"304", "200", "500", "err"}
-				vals := []int{0, 1, 2, 3, 5, 7}
+				vals := []int{0, 1, 2, 3, 5, 7, 9, 11}
 				if !thorough {
 					outcomes = []string{outcomes[g.intn(4)]}
-					vals = []int{[]int{0, 1, 2, 3, 5, 7}[g.intn(6)]}
+					vals = []int{[]int{0, 1, 2, 3, 5, 7, 9, 11}[g.intn(6)]}
 				}
 				for _, oc := range outcomes {
 					for _, v := range vals {
@@ -289,7 +293,7 @@ func TestSWR(t *testing.T) {
 					c = 2*T + 7
 				}
 				lines = append(lines, runSWR(t, &swrExp{Setting: s, Latency: d, Cancel: c, Outcome: []string{"304", "200", "500", "err"}[g.intn(4)],
-					Validator: []int{0, 1, 2, 3, 5, 7}[g.intn(6)], Deadline: dl}))
+					Validator: []int{0, 1, 2, 3, 5, 7, 9, 11}[g.intn(6)], Deadline: dl}))
 				n++
 			}
 		}
@@ -319,7 +323,7 @@ func TestSWR(t *testing.T) {
 		if g.chance(0.3) {
 			dl = int64(1+g.intn(30_000))*int64(time.Millisecond) + 17
 		}
-		lines = append(lines, runSWR(t, &swrExp{Setting: s, Latency: d, Cancel: c, Outcome: g.pick("304", "200", "500", "err"), Validator: []int{0, 1, 2, 3, 5, 7}[g.intn(6)], Deadline: dl}))
+		lines = append(lines, runSWR(t, &swrExp{Setting: s, Latency: d, Cancel: c, Outcome: g.pick("304", "200", "500", "err"), Validator: []int{0, 1, 2, 3, 5, 7, 9, 11}[g.intn(6)], Deadline: dl}))
 	}
 	if err := writeLines(filepath.Join(out, "swr.txt"), lines); err != nil {
 		t.Fatal(err)
